@@ -13,35 +13,21 @@ From PyRTL Require Import Base.PyZ Lib.Matrix Lib.MatrixProofs Gen.MatrixRules L
    Gen/MatrixRules.v is regenerated from pyrtl/rtllib/matrix.py on every run (py/genfrag_C19.py); the
    model's width rules, constructor slice arithmetic, put index handling and reshape index arithmetic
    ARE what the source says now. *)
-Theorem C19_gen_ctor_bits : forall b mb, ctor_bits_gen b mb = capb b mb.
-Proof. exact gen_ctor_bits. Qed.
-Print Assumptions C19_gen_ctor_bits.
-
-Theorem C19_gen_add_bits : forall a b,
-  bits (madd a b) = ctor_bits_gen (add_bits_gen (bits a) (bits b)) (maxb a).
-Proof. exact gen_add_bits. Qed.
-Print Assumptions C19_gen_add_bits.
-
-Theorem C19_gen_sub_bits : forall a b,
-  bits (msub a b) = ctor_bits_gen (sub_bits_gen (bits a) (bits b)) (maxb a).
-Proof. exact gen_sub_bits. Qed.
-Print Assumptions C19_gen_sub_bits.
-
-Theorem C19_gen_mul_bits : forall a b,
-  bits (mmul a b) = ctor_bits_gen (mul_bits_gen (bits a) (bits b)) (maxb a).
-Proof. exact gen_mul_bits. Qed.
-Print Assumptions C19_gen_mul_bits.
-
-Theorem C19_gen_scal_bits : forall a ws s,
-  bits (mscal a ws s) = ctor_bits_gen (scal_bits_gen (bits a) ws) (maxb a).
-Proof. exact gen_scal_bits. Qed.
-Print Assumptions C19_gen_scal_bits.
-
-Theorem C19_gen_matmul_bits : forall a b,
+Theorem C19_gen_width_rules :
+  (forall b mb, ctor_bits_gen b mb = capb b mb) /\
+  (forall a b,
+  bits (madd a b) = ctor_bits_gen (add_bits_gen (bits a) (bits b)) (maxb a)) /\
+  (forall a b,
+  bits (msub a b) = ctor_bits_gen (sub_bits_gen (bits a) (bits b)) (maxb a)) /\
+  (forall a b,
+  bits (mmul a b) = ctor_bits_gen (mul_bits_gen (bits a) (bits b)) (maxb a)) /\
+  (forall a ws s,
+  bits (mscal a ws s) = ctor_bits_gen (scal_bits_gen (bits a) ws) (maxb a)) /\
+  (forall a b,
   bits (mmatmul a b) =
-  ctor_bits_gen (matmul_bits_gen (Z.of_nat (cols_of a)) (Z.of_nat (rows_of b)) (bits a) (bits b)) (maxb a).
-Proof. exact gen_matmul_bits. Qed.
-Print Assumptions C19_gen_matmul_bits.
+  ctor_bits_gen (matmul_bits_gen (Z.of_nat (cols_of a)) (Z.of_nat (rows_of b)) (bits a) (bits b)) (maxb a)).
+Proof. exact (conj gen_ctor_bits (conj gen_add_bits (conj gen_sub_bits (conj gen_mul_bits (conj gen_scal_bits gen_matmul_bits))))). Qed.
+Print Assumptions C19_gen_width_rules.
 
 Theorem C19_gen_ctor_layout : forall r c b mb v i j, 0 <= i < Z.of_nat r -> 0 <= j < Z.of_nat c ->
   let b' := ctor_bits_gen b mb in
@@ -51,52 +37,43 @@ Theorem C19_gen_ctor_layout : forall r c b mb v i j, 0 <= i < Z.of_nat r -> 0 <=
 Proof. exact gen_ctor_layout. Qed.
 Print Assumptions C19_gen_ctor_layout.
 
-Theorem C19_gen_put_ix : forall count m ix, 0 <= m <= 2 ->
-  put_ix_gen count m ix = put_ix count (mode_of m) ix.
-Proof. exact gen_put_ix. Qed.
-Print Assumptions C19_gen_put_ix.
-
-Theorem C19_gen_put_position : forall a ix x,
+Theorem C19_gen_put :
+  (forall count m ix, 0 <= m <= 2 ->
+  put_ix_gen count m ix = put_ix count (mode_of m) ix) /\
+  (forall a ix x,
   set_flat a ix x =
   MkMx (bits a) (maxb a)
     (mk (rows_of a) (cols_of a) (fun i j =>
        if Nat.eqb i (Z.to_nat (put_row_gen ix (Z.of_nat (cols_of a)))) &&
           Nat.eqb j (Z.to_nat (put_col_gen ix (Z.of_nat (cols_of a))))
-       then trunc (bits a) x else el a i j)).
-Proof. exact gen_put_position. Qed.
-Print Assumptions C19_gen_put_position.
+       then trunc (bits a) x else el a i j))).
+Proof. exact (conj gen_put_ix gen_put_position). Qed.
+Print Assumptions C19_gen_put.
 
-Theorem C19_gen_reshape_C : forall r c ix, (0 < c)%nat ->
+Theorem C19_gen_reshape :
+  (forall r c ix, (0 < c)%nat ->
   src_C r c ix = (Z.to_nat (reshape_C_r_gen (Z.of_nat ix) (Z.of_nat r) (Z.of_nat c)),
-                  Z.to_nat (reshape_C_c_gen (Z.of_nat ix) (Z.of_nat r) (Z.of_nat c))).
-Proof. exact gen_reshape_C. Qed.
-Print Assumptions C19_gen_reshape_C.
-
-Theorem C19_gen_reshape_F : forall r c ix, (0 < r)%nat ->
+                  Z.to_nat (reshape_C_c_gen (Z.of_nat ix) (Z.of_nat r) (Z.of_nat c)))) /\
+  (forall r c ix, (0 < r)%nat ->
   src_F r c ix = (Z.to_nat (reshape_F_r_gen (Z.of_nat ix) (Z.of_nat r) (Z.of_nat c)),
-                  Z.to_nat (reshape_F_c_gen (Z.of_nat ix) (Z.of_nat r) (Z.of_nat c))).
-Proof. exact gen_reshape_F. Qed.
-Print Assumptions C19_gen_reshape_F.
-
-Theorem C19_gen_resolve_shape : forall count nr nc,
+                  Z.to_nat (reshape_F_c_gen (Z.of_nat ix) (Z.of_nat r) (Z.of_nat c)))) /\
+  (forall count nr nc,
   resolve_shape count nr nc =
   if (nr =? -1) && (nc =? -1) then None
   else let '(r, c) := if nr =? -1 then (reshape_infer_rows_gen count nc, nc)
                       else if nc =? -1 then (nr, reshape_infer_cols_gen count nr) else (nr, nc) in
-       if negb (reshape_size_bad_gen r c count) && (0 <? r) && (0 <? c) then Some (r, c) else None.
-Proof. exact gen_resolve_shape. Qed.
-Print Assumptions C19_gen_resolve_shape.
+       if negb (reshape_size_bad_gen r c count) && (0 <? r) && (0 <? c) then Some (r, c) else None).
+Proof. exact (conj gen_reshape_C (conj gen_reshape_F gen_resolve_shape)). Qed.
+Print Assumptions C19_gen_reshape.
 
 (* ---------------------------------------------------------------- WireVector <-> Matrix *)
-Theorem C19_decode_encode : forall b l, 0 <= b -> all_inrange b l ->
-  decode b (length l) (encode b l) = l.
-Proof. exact decode_encode. Qed.
-Print Assumptions C19_decode_encode.
-
-Theorem C19_encode_decode : forall b n v, 0 <= b ->
-  encode b (decode b n v) = v mod 2 ^ (b * Z.of_nat n).
-Proof. exact encode_decode. Qed.
-Print Assumptions C19_encode_decode.
+Theorem C19_layout_inverse :
+  (forall b l, 0 <= b -> all_inrange b l ->
+  decode b (length l) (encode b l) = l) /\
+  (forall b n v, 0 <= b ->
+  encode b (decode b n v) = v mod 2 ^ (b * Z.of_nat n)).
+Proof. exact (conj decode_encode encode_decode). Qed.
+Print Assumptions C19_layout_inverse.
 
 (* matrix_wv_to_list(m.to_wirevector(), rows, columns, bits) = m *)
 Theorem C19_wv_roundtrip : forall r c a, wfx r c a -> 0 <= bits a -> mrange a ->
@@ -220,23 +197,21 @@ Theorem C19_transpose_involutive : forall r c a, wfx r c a -> mrange a -> bits a
 Proof. exact transpose_involutive. Qed.
 Print Assumptions C19_transpose_involutive.
 
-Theorem C19_reshape_C_bijection : forall r c, (0 < c)%nat ->
+Theorem C19_reshape_index_bijection :
+  (forall r c, (0 < c)%nat ->
   (forall ix, (ix < r * c)%nat ->
      (fst (src_C r c ix) < r)%nat /\ (snd (src_C r c ix) < c)%nat /\
      ix_C r c (fst (src_C r c ix)) (snd (src_C r c ix)) = ix) /\
   (forall i j, (i < r)%nat -> (j < c)%nat ->
-     (ix_C r c i j < r * c)%nat /\ src_C r c (ix_C r c i j) = (i, j)).
-Proof. exact reshape_C_bijection. Qed.
-Print Assumptions C19_reshape_C_bijection.
-
-Theorem C19_reshape_F_bijection : forall r c, (0 < r)%nat ->
+     (ix_C r c i j < r * c)%nat /\ src_C r c (ix_C r c i j) = (i, j))) /\
+  (forall r c, (0 < r)%nat ->
   (forall ix, (ix < r * c)%nat ->
      (fst (src_F r c ix) < r)%nat /\ (snd (src_F r c ix) < c)%nat /\
      ix_F r c (fst (src_F r c ix)) (snd (src_F r c ix)) = ix) /\
   (forall i j, (i < r)%nat -> (j < c)%nat ->
-     (ix_F r c i j < r * c)%nat /\ src_F r c (ix_F r c i j) = (i, j)).
-Proof. exact reshape_F_bijection. Qed.
-Print Assumptions C19_reshape_F_bijection.
+     (ix_F r c i j < r * c)%nat /\ src_F r c (ix_F r c i j) = (i, j))).
+Proof. exact (conj reshape_C_bijection reshape_F_bijection). Qed.
+Print Assumptions C19_reshape_index_bijection.
 
 (* C order keeps the row-major reading; F order keeps the column-major reading *)
 Theorem C19_reshape_C_correct : forall r c a r' c' i j, wfx r c a -> mrange a -> bits a <= maxb a ->
@@ -253,15 +228,13 @@ Theorem C19_reshape_F_correct : forall r c a r' c' i j, wfx r c a -> mrange a ->
 Proof. exact reshape_F_correct. Qed.
 Print Assumptions C19_reshape_F_correct.
 
-Theorem C19_reshape_infers_rows : forall count nc, 0 < nc -> (count / nc) * nc = count -> 0 < count ->
-  resolve_shape count (-1) nc = Some (count / nc, nc).
-Proof. exact resolve_shape_infer_rows. Qed.
-Print Assumptions C19_reshape_infers_rows.
-
-Theorem C19_reshape_infers_cols : forall count nr, 0 < nr -> nr * (count / nr) = count -> 0 < count ->
-  resolve_shape count nr (-1) = Some (nr, count / nr).
-Proof. exact resolve_shape_infer_cols. Qed.
-Print Assumptions C19_reshape_infers_cols.
+Theorem C19_reshape_infers_minus_one :
+  (forall count nc, 0 < nc -> (count / nc) * nc = count -> 0 < count ->
+  resolve_shape count (-1) nc = Some (count / nc, nc)) /\
+  (forall count nr, 0 < nr -> nr * (count / nr) = count -> 0 < count ->
+  resolve_shape count nr (-1) = Some (nr, count / nr)).
+Proof. exact (conj resolve_shape_infer_rows resolve_shape_infer_cols). Qed.
+Print Assumptions C19_reshape_infers_minus_one.
 
 (* ---------------------------------------------------------------- sum / min / max / argmax *)
 Theorem C19_sum_all_exact : forall r c a bo, wfx r c a -> mrange a ->
@@ -270,45 +243,33 @@ Theorem C19_sum_all_exact : forall r c a bo, wfx r c a -> mrange a ->
 Proof. exact sum_all_exact. Qed.
 Print Assumptions C19_sum_all_exact.
 
-Theorem C19_sum_axis0 : forall r c a bo j, wfx r c a -> mrange a -> (j < c)%nat ->
+Theorem C19_sum_axis :
+  (forall r c a bo j, wfx r c a -> mrange a -> (j < c)%nat ->
   bits (msum a Ax0 bo) = capb (default_bits a bo) 64 /\
-  el (msum a Ax0 bo) 0 j = sumZ (col a j) mod 2 ^ bits (msum a Ax0 bo).
-Proof. exact sum_axis0. Qed.
-Print Assumptions C19_sum_axis0.
-
-Theorem C19_sum_axis1 : forall r c a bo i, wfx r c a -> mrange a -> (i < r)%nat ->
+  el (msum a Ax0 bo) 0 j = sumZ (col a j) mod 2 ^ bits (msum a Ax0 bo)) /\
+  (forall r c a bo i, wfx r c a -> mrange a -> (i < r)%nat ->
   bits (msum a Ax1 bo) = capb (default_bits a bo) 64 /\
-  el (msum a Ax1 bo) 0 i = sumZ (row a i) mod 2 ^ bits (msum a Ax1 bo).
-Proof. exact sum_axis1. Qed.
-Print Assumptions C19_sum_axis1.
+  el (msum a Ax1 bo) 0 i = sumZ (row a i) mod 2 ^ bits (msum a Ax1 bo)).
+Proof. exact (conj sum_axis0 sum_axis1). Qed.
+Print Assumptions C19_sum_axis.
 
-Theorem C19_max_all : forall r c a bo, wfx r c a -> is_max (el (mmax a AxNone bo) 0 0) (flat (dat a)).
-Proof. exact max_all. Qed.
-Print Assumptions C19_max_all.
+Theorem C19_max :
+  (forall r c a bo, wfx r c a -> is_max (el (mmax a AxNone bo) 0 0) (flat (dat a))) /\
+  (forall r c a bo j, wfx r c a -> (j < c)%nat ->
+  exists m, is_max m (col a j) /\ el (mmax a Ax0 bo) 0 j = m mod 2 ^ bits (mmax a Ax0 bo)) /\
+  (forall r c a bo i, wfx r c a -> (i < r)%nat ->
+  exists m, is_max m (row a i) /\ el (mmax a Ax1 bo) 0 i = m mod 2 ^ bits (mmax a Ax1 bo)).
+Proof. exact (conj max_all (conj max_axis0 max_axis1)). Qed.
+Print Assumptions C19_max.
 
-Theorem C19_max_axis0 : forall r c a bo j, wfx r c a -> (j < c)%nat ->
-  exists m, is_max m (col a j) /\ el (mmax a Ax0 bo) 0 j = m mod 2 ^ bits (mmax a Ax0 bo).
-Proof. exact max_axis0. Qed.
-Print Assumptions C19_max_axis0.
-
-Theorem C19_max_axis1 : forall r c a bo i, wfx r c a -> (i < r)%nat ->
-  exists m, is_max m (row a i) /\ el (mmax a Ax1 bo) 0 i = m mod 2 ^ bits (mmax a Ax1 bo).
-Proof. exact max_axis1. Qed.
-Print Assumptions C19_max_axis1.
-
-Theorem C19_min_all : forall r c a bo, wfx r c a -> is_min (el (mmin a AxNone bo) 0 0) (flat (dat a)).
-Proof. exact min_all. Qed.
-Print Assumptions C19_min_all.
-
-Theorem C19_min_axis0 : forall r c a bo j, wfx r c a -> (j < c)%nat ->
-  exists m, is_min m (col a j) /\ el (mmin a Ax0 bo) 0 j = m mod 2 ^ bits (mmin a Ax0 bo).
-Proof. exact min_axis0. Qed.
-Print Assumptions C19_min_axis0.
-
-Theorem C19_min_axis1 : forall r c a bo i, wfx r c a -> (i < r)%nat ->
-  exists m, is_min m (row a i) /\ el (mmin a Ax1 bo) 0 i = m mod 2 ^ bits (mmin a Ax1 bo).
-Proof. exact min_axis1. Qed.
-Print Assumptions C19_min_axis1.
+Theorem C19_min :
+  (forall r c a bo, wfx r c a -> is_min (el (mmin a AxNone bo) 0 0) (flat (dat a))) /\
+  (forall r c a bo j, wfx r c a -> (j < c)%nat ->
+  exists m, is_min m (col a j) /\ el (mmin a Ax0 bo) 0 j = m mod 2 ^ bits (mmin a Ax0 bo)) /\
+  (forall r c a bo i, wfx r c a -> (i < r)%nat ->
+  exists m, is_min m (row a i) /\ el (mmin a Ax1 bo) 0 i = m mod 2 ^ bits (mmin a Ax1 bo)).
+Proof. exact (conj min_all (conj min_axis0 min_axis1)). Qed.
+Print Assumptions C19_min.
 
 Theorem C19_argmax_all_first_max : forall r c a bo, wfx r c a ->
   exists m n, is_max m (flat (dat a)) /\ first_index m (flat (dat a)) n /\
@@ -324,19 +285,17 @@ Definition C19_argmax_axis0_full_statement : Prop :=
 
 (* ... holds for every `bits` argument when the element width is at most 64 (the intermediate
    max(matrix, axis, bits=matrix.bits) is built with the default max_bits=64) ... *)
-Theorem C19_argmax_axis0_first_max_partial : forall r c a bo j, wfx r c a -> mrange a -> (j < c)%nat ->
+Theorem C19_argmax_axis_first_max_partial :
+  (forall r c a bo j, wfx r c a -> mrange a -> (j < c)%nat ->
   bits a <= 64 ->
   exists m n, is_max m (col a j) /\ first_index m (col a j) n /\
-              el (margmax a Ax0 bo) 0 j = Z.of_nat n mod 2 ^ bits (margmax a Ax0 bo).
-Proof. exact argmax_axis0_first_max. Qed.
-Print Assumptions C19_argmax_axis0_first_max_partial.
-
-Theorem C19_argmax_axis1_first_max_partial : forall r c a bo i, wfx r c a -> mrange a -> (i < r)%nat ->
+              el (margmax a Ax0 bo) 0 j = Z.of_nat n mod 2 ^ bits (margmax a Ax0 bo)) /\
+  (forall r c a bo i, wfx r c a -> mrange a -> (i < r)%nat ->
   bits a <= 64 ->
   exists m n, is_max m (row a i) /\ first_index m (row a i) n /\
-              el (margmax a Ax1 bo) 0 i = Z.of_nat n mod 2 ^ bits (margmax a Ax1 bo).
-Proof. exact argmax_axis1_first_max. Qed.
-Print Assumptions C19_argmax_axis1_first_max_partial.
+              el (margmax a Ax1 bo) 0 i = Z.of_nat n mod 2 ^ bits (margmax a Ax1 bo)).
+Proof. exact (conj argmax_axis0_first_max argmax_axis1_first_max). Qed.
+Print Assumptions C19_argmax_axis_first_max_partial.
 
 (* ... and is false beyond: 65-bit elements (max_bits=100), column [2^64; 2^64+1] -> index 0.
    Outside the property's quantifier (element widths 1..8); recorded, not searched. *)
@@ -377,19 +336,14 @@ Theorem C19_getitem_block : forall r c a kr kc rs re cs ce i j, wfx r c a -> mra
 Proof. exact getitem_block. Qed.
 Print Assumptions C19_getitem_block.
 
-Theorem C19_put_index_raise : forall count ix, 0 < count ->
-  put_ix count PRaise ix = if (- count <=? ix) && (ix <? count) then Some (from_end count ix) else None.
-Proof. exact put_ix_raise. Qed.
-Print Assumptions C19_put_index_raise.
-
-Theorem C19_put_index_wrap : forall count ix, 0 < count -> put_ix count PWrap ix = Some (ix mod count).
-Proof. exact put_ix_wrap. Qed.
-Print Assumptions C19_put_index_wrap.
-
-Theorem C19_put_index_clip : forall count ix, 0 < count ->
-  put_ix count PClip ix = Some (Z.max 0 (Z.min (count - 1) (from_end count ix))).
-Proof. exact put_ix_clip. Qed.
-Print Assumptions C19_put_index_clip.
+Theorem C19_put_index_modes :
+  (forall count ix, 0 < count ->
+  put_ix count PRaise ix = if (- count <=? ix) && (ix <? count) then Some (from_end count ix) else None) /\
+  (forall count ix, 0 < count -> put_ix count PWrap ix = Some (ix mod count)) /\
+  (forall count ix, 0 < count ->
+  put_ix count PClip ix = Some (Z.max 0 (Z.min (count - 1) (from_end count ix)))).
+Proof. exact (conj put_ix_raise (conj put_ix_wrap put_ix_clip)). Qed.
+Print Assumptions C19_put_index_modes.
 
 Theorem C19_put_writes_flat_position : forall r c a ix x i j, wfx r c a -> 0 <= ix < Z.of_nat (r * c) ->
   (i < r)%nat -> (j < c)%nat ->
@@ -404,15 +358,13 @@ Proof. exact put_matrix_value_as_list. Qed.
 Print Assumptions C19_put_matrix_value_as_list.
 
 (* dot with a 1x1 operand is the scalar product (C19_scalar_mul_mod), on either side *)
-Theorem C19_dot_1x1_first : forall a b, is11 a = true -> is11 b = false ->
-  mdot a b = Some (mscal b (bits a) (el a 0 0)).
-Proof. exact dot_1x1_first. Qed.
-Print Assumptions C19_dot_1x1_first.
-
-Theorem C19_dot_1x1_second : forall a b, is11 a = false -> is11 b = true ->
-  mdot a b = Some (mscal a (bits b) (el b 0 0)).
-Proof. exact dot_1x1_second. Qed.
-Print Assumptions C19_dot_1x1_second.
+Theorem C19_dot_1x1 :
+  (forall a b, is11 a = true -> is11 b = false ->
+  mdot a b = Some (mscal b (bits a) (el a 0 0))) /\
+  (forall a b, is11 a = false -> is11 b = true ->
+  mdot a b = Some (mscal a (bits b) (el b 0 0))).
+Proof. exact (conj dot_1x1_first dot_1x1_second). Qed.
+Print Assumptions C19_dot_1x1.
 
 Theorem C19_hstack_rows : forall m1 m2 ms i, let all := m1 :: m2 :: ms in
   forallb (fun x => Nat.eqb (rows_of x) (rows_of m1)) all = true -> (i < rows_of m1)%nat ->
